@@ -12,9 +12,17 @@ Definition entrait_for_single_fn (a : fn_attr) (attrs : list attr) (v : vis) (s 
   let* (tf, tg) := analyze RSelfRef o empty_tg s in
   let fns := [tf] in
   let* mode := detect_trait_dependency_mode MSingleFn fns in
-  let trait_def := gen_trait_def o TPlain mode attrs (fa_vis a) (fa_trait a) tg false pempty fns MSingleFn in
+  let trait_def := gen_trait_def o TPlain mode attrs None (fa_vis a) (fa_trait a) tg false pempty fns MSingleFn in
   let* impl_block := gen_impl_block o [TId (fa_trait a)] INone tg MSingleFn mode attrs fns in
   Ok [IFn attrs v s body; ITrait trait_def; IImpl impl_block].
+
+(** [TraitFn::with_cfg_attrs_of], for the fns of a module / impl block *)
+Fixpoint with_cfg_attrs (fns : list trait_fn) (src : list (list attr * vis * sig * toks)) : list trait_fn :=
+  match fns, src with
+  | tf :: fns', (attrs, _, _, _) :: src' =>
+      mkTF (tf_deps tf) (filter is_cfg_attr attrs) (tf_sig tf) (tf_async tf) :: with_cfg_attrs fns' src'
+  | _, _ => fns
+  end.
 
 (** ** entrait_fn/mod.rs: module *)
 Definition item_of_body_item (b : body_item) : item :=
@@ -27,9 +35,10 @@ Definition entrait_for_mod (a : fn_attr) (attrs : list attr) (v : vis) (name : s
   : result (list item) :=
   let o := fa_opts a in
   let sigs := map (fun '(_, _, s, _) => s) (body_fns items) in
-  let* (fns, tg) := analyze_all RSelfRef o empty_tg sigs in
+  let* (fns0, tg) := analyze_all RSelfRef o empty_tg sigs in
+  let fns := with_cfg_attrs fns0 (body_fns items) in
   let* mode := detect_trait_dependency_mode MModule fns in
-  let trait_def := gen_trait_def o TPlain mode attrs (fa_vis a) (fa_trait a) tg false pempty fns MModule in
+  let trait_def := gen_trait_def o TPlain mode attrs None (fa_vis a) (fa_trait a) tg false pempty fns MModule in
   let* impl_block := gen_impl_block o [TId (fa_trait a)] INone tg MModule mode attrs fns in
   Ok [IMod attrs v name (map item_of_body_item items ++ [ITrait trait_def; IImpl impl_block]);
       IUse [] (fa_vis a) ([TId name] ++ path_sep ++ [TId (fa_trait a)])].
@@ -46,7 +55,8 @@ Definition output_for_impl (a : impl_attr) (attrs : list attr) (unsafety : bool)
   let o := ia_opts a in
   let k := match ia_kind a with KStatic => RStaticImpl | KDynRef => RDynamicImpl end in
   let sigs := map (fun '(_, _, s, _) => s) (body_fns items) in
-  let* (fns, tg) := analyze_all k o empty_tg sigs in
+  let* (fns0, tg) := analyze_all k o empty_tg sigs in
+  let fns := with_cfg_attrs fns0 (body_fns items) in
   let* mode := detect_trait_dependency_mode MImplBlock fns in
   let ind := match ia_kind a with KStatic => IStatic self_ty | KDynRef => IDynamic self_ty end in
   let* impl_block := gen_impl_block o trait_path ind tg MImplBlock mode attrs fns in
@@ -55,6 +65,9 @@ Definition output_for_impl (a : impl_attr) (attrs : list attr) (unsafety : bool)
       IImpl impl_block].
 
 (** ** entrait_trait *)
+Definition plain_identifier_msg : string :=
+  "Entrait needs a plain identifier for this parameter, in order to delegate the method.".
+
 Definition unsupported_trait_item : err := EMsg "Entrait does not support this kind of trait item.".
 
 (** [out_trait::analyze_trait]: methods become trait fns with [NoDeps]; associated types are collected
@@ -62,7 +75,10 @@ Definition unsupported_trait_item : err := EMsg "Entrait does not support this k
 Fixpoint analyze_trait_items (l : list titem) : result (list trait_fn) :=
   match l with
   | [] => Ok []
-  | TFn attrs s _ _ :: rest => let* r := analyze_trait_items rest in Ok (mkTF DNoDeps attrs s (s_async s) :: r)
+  | TFn attrs s _ _ :: rest =>
+      if forallb is_pident (p_items (s_inputs s)) then
+        let* r := analyze_trait_items rest in Ok (mkTF DNoDeps attrs s (s_async s) :: r)
+      else Err (EMsg plain_identifier_msg)
   | TType _ :: rest => analyze_trait_items rest
   | TOther _ :: _ => Err unsupported_trait_item
   end.
@@ -105,9 +121,6 @@ Definition map_sig (f : sig -> sig) (tf : trait_fn) : trait_fn :=
 Definition no_mock_opts (o : opts) : opts :=
   mkOpts (o_no_deps o) (o_debug o) (o_export o) (o_future_send o) None None None.
 
-Definition custom_delegate_msg : string :=
-  "Cannot use a custom delegating trait without a custom trait to delegate to. Use either `#[entrait(TraitImpl, delegate_by = DelegateTrait)]` or `#[entrait(delegate_by = ref)]`".
-
 (** [gen_impl_delegation_trait_defs] *)
 Definition delegation_trait_defs (a : trait_attr) (v : vis) (tg : trait_generics) (fns : list trait_fn)
            (impl_subs : list attr) : result (list item) :=
@@ -118,7 +131,7 @@ Definition delegation_trait_defs (a : trait_attr) (v : vis) (tg : trait_generics
       match ta_delegate a with
       | Some (ByTrait del) =>
           let fns' := map (map_sig static_impl_receiver) fns in
-          let td := gen_trait_def o TStaticImpl MGeneric impl_subs v impl_trait (with_entrait_t tg)
+          let td := gen_trait_def o TStaticImpl MGeneric impl_subs (Some []) v impl_trait (with_entrait_t tg)
                                   true static_supers fns' MRawTrait in
           let td' := mkTrait (impl_subs ++ t_attrs td) (t_vis td) (t_unsafe td) (t_auto td) (t_name td)
                              (t_gen td) (t_colon td) (t_supers td) (t_items td) in
@@ -128,7 +141,7 @@ Definition delegation_trait_defs (a : trait_attr) (v : vis) (tg : trait_generics
                               [TType [TId "type"; TId "Target"; pc ":"; TId impl_trait; pc "<"; TId "T"; pc ">"; pc ";"]])]
       | Some (ByRef _) =>
           let fns' := map (map_sig dynamic_impl_receiver) fns in
-          let td := gen_trait_def o TDynamicImpl MGeneric impl_subs v impl_trait (with_entrait_t tg)
+          let td := gen_trait_def o TDynamicImpl MGeneric impl_subs (Some []) v impl_trait (with_entrait_t tg)
                                   true static_supers fns' MRawTrait in
           let td' := mkTrait (impl_subs ++ t_attrs td) (t_vis td) (t_unsafe td) (t_auto td) (t_name td)
                              (t_gen td) (t_colon td) (t_supers td) (t_items td) in
@@ -140,7 +153,7 @@ Definition delegation_trait_defs (a : trait_attr) (v : vis) (tg : trait_generics
 (** [gen_delegation_method] + [DelegatingMethod::to_tokens] *)
 Definition delegation_call (a : trait_attr) (contains_async : bool) (name : string) (args : list toks) : toks :=
   let arglist := join [comma] args in
-  let plus_sync := if contains_async then [pc "+"; TId "Sync"] else [] in
+  let plus_sync := if contains_async then [pc "+"] ++ core_marker "Sync" else [] in
   let via (core_path : list string) (method : string) (impl_trait : string) :=
     [pc "<"; TId "EntraitT"; TId "as"] ++ abs_path core_path ++
     [pc "<"; TId "dyn"; TId impl_trait; pc "<"; TId "EntraitT"; pc ">"] ++ plus_sync ++ [pc ">"; pc ">"] ++
@@ -177,8 +190,8 @@ Definition delegation_method (a : trait_attr) (contains_async : bool) (tf : trai
 
 (** [ImplWhereClause::push_impl_t_bounds] *)
 Definition plus_static : toks := [pc "+"; pc "'"; TId "static"].
-Definition plus_send : toks := [pc "+"; TId "Send"].
-Definition plus_sync : toks := [pc "+"; TId "Sync"].
+Definition plus_send : toks := [pc "+"] ++ core_marker "Send".
+Definition plus_sync : toks := [pc "+"] ++ core_marker "Sync".
 
 Definition impl_t_bounds (a : trait_attr) (contains_async : bool) (name : string) (tg : trait_generics) : toks :=
   let trait_with_args := [TId name] ++ print_arguments false (tg_params tg) in
@@ -213,7 +226,7 @@ Definition output_for_trait (a : trait_attr) (h : head) (t : item_trait) : resul
       let tg := mkTG (p_items (g_params (t_gen t)))
                      (match g_where (t_gen t) with Some w => w | None => pempty end) in
       let* deleg := delegation_trait_defs a v tg fns impl_subs in
-      let trait_def := gen_trait_def (ta_opts a) TTrait MGeneric attrs v (t_name t) tg
+      let trait_def := gen_trait_def (ta_opts a) TTrait MGeneric attrs (Some attrs) v (t_name t) tg
                                      (t_colon t) (t_supers t) fns MRawTrait in
       let* methods := map_res (delegation_method a contains_async) fns in
       let where_ := mk_pred (impl_t_bounds a contains_async (t_name t) tg) :: p_items (tg_where tg) in
@@ -232,10 +245,12 @@ Definition expand_items (v : variant) (attr_toks : toks) (i : input) : result (l
   | InHeadErr => Err ESyn
   | InFnErr _ | InTraitErr _ | InImplErr _ | InModErr _ => Err ESyn
   | InFn h s body =>
-      (* [Input::parse] has consumed (and dropped) a leading [unsafe] / [auto] *)
+      (* [Input::parse] has consumed a leading [unsafe] (put back into the signature) / [auto] (dropped) *)
+      let s' := mkSig (s_const s) (s_async s) (s_unsafe s || h_unsafe h) (s_abi s) (s_name s) (s_gen s)
+                      (s_inputs s) (s_variadic s) (s_output s) in
       let* a := parse_fn_attr attr_toks in
-      entrait_for_single_fn (with_fn_opts a (apply_variant v (fa_opts a))) (h_attrs h) (h_vis h) s body
-  | InMod h name body sigs =>
+      entrait_for_single_fn (with_fn_opts a (apply_variant v (fa_opts a))) (h_attrs h) (h_vis h) s' body
+  | InMod h name body sigs _ =>
       if h_unsafe h || h_auto h then Err not_allowed_here
       else
         let* (items, _) := split_body true sigs body in
@@ -244,7 +259,7 @@ Definition expand_items (v : variant) (attr_toks : toks) (i : input) : result (l
   | InTrait h t =>
       let* a := parse_trait_attr attr_toks in
       output_for_trait (mkTraitAttr (ta_impl_trait a) (apply_variant v (ta_opts a)) (ta_delegate a)) h t
-  | InImpl h trait_path self_ty body sigs =>
+  | InImpl h trait_path self_ty body sigs _ =>
       if h_auto h then Err not_allowed_here
       else
         let* (items, _) := split_body false sigs body in
